@@ -526,7 +526,7 @@ def main(pid, tier):
                     "normalised from the generated Python bp_processor() == the reference layout; BpSetByte/BpGetByte/BpGetAccessor/BpProcessInt case "
                     "labels, addressed field, index depth, conversion type, sign-extension shifts; Go runtime helpers getMask/getNbitsToCopy/"
                     "smartShift/min/Byte2bool/Bool2byte interpreted on their whole domain vs lib/py; non-trivial = message with > 1 field / helper call",
-               exhaustive=True, bound="SING(%s) u COMB(2) u TREE (definitions placed in imported files are resolved across the generated packages)" % tier)
+               exhaustive=True, bound="SING(%s) u COMB(2) u TREE u HOMONYMS (definitions placed in imported files are resolved across the generated packages)" % tier)
     return finish(PID, tier, acc, cov, t0, assumptions=["bpmc/gofront's reading of the Go specification", "Python's ast module"])
 
 
